@@ -133,6 +133,63 @@ def failed_build_family(chk, sess, n):
             chk.count(("fb", i) if any("cancelled" in l for l in r["out"]) else None, n=len(builds))
 
 
+def foreign_family(chk, sess, n):
+    """Another tool with a DIFFERENT client schema version uses the same database file between two builds of a live engine: the live
+    engine must never interpret what the other wrote (it recreates or is rejected), and what IT writes afterwards must be read back
+    correctly by a later process (results equal a brand-new engine, no bogus cycle)."""
+    for i in range(n):
+        rng = random.Random(chk.rng.random())
+        L = E.gen_history(rng, usedb=True, nops=(2, 6), sched=None, allow_rule_edits=False)
+        keys = [int(l.split(" ")[1]) for l in L if l.startswith("rule")]
+        out = [L[0], "schema 1"]
+        nb = 0
+        for l in L[1:]:
+            out.append(l)
+            if l.startswith("build") and rng.random() < 0.6:
+                out.append("foreign %d %d %d" % (rng.choice([2, 3]), rng.choice([1, 1, 0]), rng.choice(keys)))
+                out.append("build %d" % rng.choice(keys))
+                if rng.random() < 0.7:
+                    out.append("restart")
+                    out.append("build %d" % rng.choice(keys))
+        lines = K.with_fresh(out)
+        r = sess.run(lines, "fg")
+        if r["rc"] != 0:
+            chk.violation("driver-crash", "engine_driver exited with status %s" % r["rc"], dict(scenario=lines, stderr=r["err"][-1500:]), found_input=True)
+            continue
+        for b in [b for b in K.parse_impl(r["out"]) if b["hdr"] != "restart"]:
+            val, cancelled = K.result_value(b)
+            cyc = [x for x in b["other"] if x.startswith("cycle")]
+            if cyc:
+                chk.violation("foreign-version-bogus-cycle", "after another client version used the database file, '%s' reports %s on an acyclic rule set" % (b["hdr"], cyc[0]),
+                              dict(scenario=lines, implementation=r["out"]), found_input=True, broken="version gate / key-id mapping")
+            elif b.get("fresh") is not None and val != b["fresh"]:
+                chk.violation("foreign-version-stale", "after another client version used the database file, '%s' returned %s, a brand-new engine computes %s" % (b["hdr"], val, b["fresh"]),
+                              dict(scenario=lines, implementation=r["out"]), found_input=True, broken="version gate: foreign rows interpreted")
+        # rows written under the foreign version must never be served to the live engine: a key the live engine never built must be executed by it
+        chk.count(("fg", i), n=sum(1 for l in r["out"] if l.startswith("build ")))
+    # corpus: the live engine recreates the file but must not keep the key IDs of the old one (fixed: see KNOWN_FINDINGS)
+    L = K.with_fresh(["db 1", "schema 1", "rule 0 sig=0 obs=1", "rule 4 sig=0 obs=0 req=0", "rule 5 sig=0 obs=0 req=0", "set 0 1", "build 4", "foreign 2 1 5", "build 5",
+                      "restart", "set 0 2", "build 5", "build 4"])
+    r = sess.run(L, "fgc")
+    for b in [b for b in K.parse_impl(r["out"]) if b["hdr"] != "restart"]:
+        val, _ = K.result_value(b)
+        if any(x.startswith("cycle") for x in b["other"]) or (b.get("fresh") is not None and val != b["fresh"]):
+            chk.violation("foreign-version-bogus-cycle", "corpus: after the database was recreated under a live engine '%s' fails or is stale (%s vs fresh %s)" % (b["hdr"], val, b.get("fresh")),
+                          dict(scenario=L, implementation=r["out"]), found_input=True, broken="version gate / key-id mapping")
+    # a key the OTHER version built must be executed (not served) by the live engine
+    L = ["db 1", "schema 1", "rule 0 sig=0 obs=1", "rule 4 sig=0 obs=0 req=0", "rule 5 sig=0 obs=0 req=0", "set 0 1", "build 4", "foreign 2 1 5", "build 5"]
+    for rec in (1, 0):
+        LL = L[:2] + ["recreate %d" % rec] + L[2:]
+        r = sess.run(LL, "fgc")
+        last = [b for b in K.parse_impl(r["out"]) if b["hdr"] != "restart"][-1]
+        ran5 = any(e == "create 5" for e in last["events"])
+        errs = [l for l in r["out"] if l.startswith(("error", "attach-error"))]
+        if not ran5 and not errs:
+            chk.violation("foreign-version-interpreted", "the live engine (client schema 1, recreate=%d) returned key 5 without executing it after a client of schema 2 had stored it in the same file" % rec,
+                          dict(scenario=LL, implementation=r["out"]), found_input=True, broken="version gate")
+    chk.count(None, n=6)
+
+
 def version_grid(chk, sess):
     """(schema, client) pairs: a database written under other versions is recreated empty or rejected, never interpreted."""
     rules = ["rule 0 sig=0 obs=1", "rule 1 sig=0 obs=0 req=0", "set 0 3"]
@@ -214,6 +271,7 @@ def run(chk):
         if i < 2:
             chk.sample("\n".join(L[:14])[:900])
     failed_build_family(chk, sess, chk.n(30, 800))
+    foreign_family(chk, sess, chk.n(25, 600))
     # corpus: the iteration must be persisted by a failed build too (see c05 corpus "iteration-persisted")
     for n in range(0, 16):
         L = K.with_fresh(["db 1", "rule 0 sig=0 obs=1", "rule 4 sig=0 obs=0 req=0", "rule 5 sig=0 obs=0 req=4", "rule 7 sig=0 obs=0 req=5", "set 0 1", "build 7", "set 0 2",
